@@ -541,7 +541,9 @@ theorem lexAll_seg (s : List Nat) (hs : ∀ c ∈ s, SegChar c) :
     rw [nextToken_later _ rfl hsolid]
     have hd : dispatchToken (segState s s.length) = parseEOF (segState s s.length) := by
       unfold dispatchToken
-      simp [hcur, runeEOF]
+      have hnot : ¬ (segState s s.length).cursor < (segState s s.length).src.size := by
+        simp [segState, startState]
+      simp [hcur, runeEOF, hnot]
     rw [hd]
     have hp := parseEOF_segState s s.length (Nat.le_refl _)
     generalize hq : parseEOF (segState s s.length) = q at hp
